@@ -148,7 +148,11 @@ extern "C" int harness_main() {
   return 0;
 #else
   // ------------------------------------------------------------------------------------------------ C19 / C08
+#ifdef ONLY_LOG_TOOLS
+  int tool = verif_bool("log_tool_is_recompact") ? T_RECOMPACT : T_RESTAT;
+#else
   int tool = verif_choice("tool", T_NTOOLS);
+#endif
   std::vector<std::string> args; args.push_back("-t");
   switch (tool) {
     case T_COMMANDS: args.push_back("commands"); args.push_back(target); break;
